@@ -141,7 +141,7 @@ Proof.
   assert (In r (filter (fun r => String.eqb (r_src r) s && String.eqb (r_ev r) e) t)) as Hin by (rewrite E; left; reflexivity).
   apply filter_In in Hin as [Hin Hc]. apply andb_true_iff in Hc as [Hs He].
   apply String.eqb_eq in Hs. subst s.
-  unfold tps_states. apply in_or_app. left.
+  rewrite tps_states_all. apply in_or_app. left.
   unfold src_states. apply In_dedup. unfold present. apply filter_In. split.
   - apply in_map. assumption.
   - rewrite forallb_forall in Hwf. specialize (Hwf r Hin). unfold row_ok in Hwf.
@@ -214,7 +214,7 @@ Proof.
   intros t s Hin. unfold prog_of. cbn [lookup_def].
   assert (String.eqb "__init__" ("process" ++ s) = false) as -> by reflexivity.
   assert (s <> "") as Hs.
-  { intro. subst. unfold tps_states in Hin. apply in_app_or in Hin as [Hin|Hin].
+  { intro. subst. rewrite tps_states_all in Hin. apply in_app_or in Hin as [Hin|Hin].
     - unfold src_states in Hin. apply (proj1 (In_dedup _ _)) in Hin. unfold present in Hin.
       apply filter_In in Hin as [_ H]. discriminate.
     - apply filter_In in Hin as [Hin _]. unfold states in Hin. apply (proj1 (In_dedup _ _)) in Hin.
